@@ -65,6 +65,7 @@ var histOps = []string{
 
 type histCase struct {
 	FS      string   `json:"FS"`
+	OFS     string   `json:"OFS"`
 	Records []string `json:"records"`
 	Ops     []string `json:"op_after_probe_of_record_k"`
 	Program string   `json:"program"`
@@ -87,12 +88,7 @@ func checkHistory(c *vh.Ctx) {
 		res vh.RunResult
 	}
 	jobs := make([]job, 0, n+8)
-	mk := func(fs string, recs [][]string, ops []string) job {
-		sep := fs
-		var lines []string
-		for _, r := range recs {
-			lines = append(lines, strings.Join(r, sep))
-		}
+	mkl := func(fs, ofs string, lines []string, ops []string) job {
 		var b strings.Builder
 		b.WriteString(awkHist)
 		for i, op := range ops {
@@ -100,7 +96,14 @@ func checkHistory(c *vh.Ctx) {
 				fmt.Fprintf(&b, "NR == %d { %s }\n", i+1, op)
 			}
 		}
-		return job{cs: histCase{FS: fs, Records: lines, Ops: ops, Program: b.String()}}
+		return job{cs: histCase{FS: fs, OFS: ofs, Records: lines, Ops: ops, Program: b.String()}}
+	}
+	mk := func(fs string, recs [][]string, ops []string) job {
+		var lines []string
+		for _, r := range recs {
+			lines = append(lines, strings.Join(r, fs))
+		}
+		return mkl(fs, fs, lines, ops)
 	}
 	// corpus: minimized past misses (per-field "assigned by the program" flags surviving into the next record)
 	jobs = append(jobs,
@@ -112,6 +115,12 @@ func checkHistory(c *vh.Ctx) {
 		mk(" ", [][]string{{"5", "6"}, {"7"}, {"10", "9"}}, []string{`getline $2`, ``, ``}),
 		mk(" ", [][]string{{"5", "6", "7"}, {"10", "9", "1e1"}}, []string{`NF = 1; $3 = "x"`, ``}),
 		mk(" ", [][]string{{"5", "6"}, {"10", "9"}}, []string{`$0 = "a b"; $1 = "c"`, ``}),
+		// the next record's text equals the current (rebuilt / assigned) $0: per-record state must still be rebuilt
+		mkl(" ", " ", []string{"10 9", "10 9", "10 9"}, []string{`$1 = $1`, `$2 = "9"`, ``}),
+		mkl(" ", "-", []string{"10 9", "10-9", "10-9 1e1"}, []string{`$1 = $1`, `NF = NF`, ``}),
+		mkl(" ", " ", []string{"1 9", "10 9", "10"}, []string{`$1 = "10"`, `$0 = "10"`, ``}),
+		mkl(",", ",", []string{"10,9", "10,9"}, []string{`$2 = $2 ""`, ``}),
+		mkl(" ", " ", []string{"7 8", "3 4", "3 4"}, []string{`$0 = "3 4"; $1 = $1`, `$2 = "4"; if ((getline) > 0) P("g")`, ``}),
 	)
 	for len(jobs) < n {
 		fs := " "
@@ -145,12 +154,65 @@ func checkHistory(c *vh.Ctx) {
 			}
 			ops[i] = op
 		}
-		jobs = append(jobs, mk(fs, recs, ops))
+		ofs := fs
+		if c.Rng.Intn(3) == 0 {
+			ofs = []string{"-", ":", "  ", ","}[c.Rng.Intn(4)]
+		}
+		lines := make([]string, nrec)
+		for i, r := range recs {
+			lines[i] = strings.Join(r, fs)
+		}
+		// make some records byte-identical to what $0 of the previous record is (or becomes)
+		for i := 0; i+1 < nrec; i++ {
+			if c.Rng.Intn(3) != 0 {
+				continue
+			}
+			cur := histSplit(fs, lines[i])
+			switch c.Rng.Intn(5) {
+			case 0: // the same record again
+				lines[i+1] = lines[i]
+				c.Hit("history:next-record:identical")
+			case 1: // the record as rebuilt by a field assignment that changes nothing
+				if len(cur) == 0 {
+					continue
+				}
+				k := 1 + c.Rng.Intn(len(cur))
+				ops[i] = []string{fmt.Sprintf("$%d = $%d", k, k), "NF = NF", fmt.Sprintf("$%d = $%d \"\"", k, k), fmt.Sprintf("sub(/^/, \"\", $%d)", k)}[c.Rng.Intn(4)]
+				lines[i+1] = strings.Join(cur, ofs)
+				c.Hit("history:next-record:equals-rebuilt-$0")
+			case 2: // … by an assignment of a numeric-looking string
+				if len(cur) == 0 {
+					continue
+				}
+				k := c.Rng.Intn(len(cur))
+				v := []string{"10", "9", "1e1", "+5"}[c.Rng.Intn(4)]
+				cur[k] = v
+				ops[i] = fmt.Sprintf("$%d = \"%s\"", k+1, v)
+				lines[i+1] = strings.Join(cur, ofs)
+				c.Hit("history:next-record:equals-rebuilt-$0")
+			case 3: // the assigned $0
+				v := []string{"3 4", "10", "10 9 1e1", "+5,010"}[c.Rng.Intn(4)]
+				ops[i] = fmt.Sprintf("$0 = \"%s\"", v)
+				if c.Rng.Intn(2) == 0 {
+					ops[i] += "; $1 = $1 \"\""
+					if ofs != fs || fs != " " {
+						continue
+					}
+				}
+				lines[i+1] = v
+				c.Hit("history:next-record:equals-assigned-$0")
+			case 4: // identical, and read by plain getline
+				lines[i+1] = lines[i]
+				ops[i] = []string{`$1 = $1; if ((getline) > 0) P("g")`, `$2 = "10"; $2 = $2; if ((getline) > 0) P("g")`, `if ((getline) > 0) P("g")`}[c.Rng.Intn(3)]
+				c.Hit("history:next-record:identical")
+			}
+		}
+		jobs = append(jobs, mkl(fs, ofs, lines, ops))
 	}
 	vh.Parallel(len(jobs), func(i int) {
 		j := &jobs[i]
 		in := strings.Join(j.cs.Records, "\n") + "\n"
-		j.res = vh.ExecProg(vh.MustParse(j.cs.Program), &interp.Config{Stdin: strings.NewReader(in), Vars: []string{"FS", j.cs.FS}})
+		j.res = vh.ExecProg(vh.MustParse(j.cs.Program), &interp.Config{Stdin: strings.NewReader(in), Vars: []string{"FS", j.cs.FS, "OFS", j.cs.OFS}})
 	})
 	for _, j := range jobs {
 		c.OracleCase()
@@ -160,7 +222,7 @@ func checkHistory(c *vh.Ctx) {
 				hasHist = true
 			}
 		}
-		c.Eval("hist|"+j.cs.FS+"|"+strings.Join(j.cs.Records, "\n")+"|"+strings.Join(j.cs.Ops, "\n"), hasHist)
+		c.Eval("hist|"+j.cs.FS+"|"+j.cs.OFS+"|"+strings.Join(j.cs.Records, "\n")+"|"+strings.Join(j.cs.Ops, "\n"), hasHist)
 		c.Hit("history:records:" + strconv.Itoa(len(j.cs.Records)))
 		for _, op := range j.cs.Ops {
 			c.Hit("history:op:" + histOpClass(op))
